@@ -929,6 +929,74 @@ func (rn *runner) Exec(op string) string {
 			return "nil"
 		}
 		return fmtFrame(nf) + " | " + fmtFrame(f)
+	case "tpb":
+		// tpb <pers> <prefixhex> <id> <valuehex> <followhex>: every declared-length variant of one parameter
+		pre, id, v, fol := unhx(arg(2)), u64(arg(3)), unhx(arg(4)), unhx(arg(5))
+		var out []string
+		one := func(declared uint64, val []byte) {
+			body := append([]byte{}, pre...)
+			body = putVarint(body, id, vlen(id))
+			body = putVarint(body, declared, vlen(declared))
+			body = append(body, val...)
+			out = append(out, rn.summ("tpdec", []string{arg(1)}, body), rn.summ("tpdec", []string{arg(1)}, append(append([]byte{}, body...), fol...)))
+		}
+		for l := 0; l <= len(v)+2; l++ { // the value cut (or padded) to every length, declared consistently
+			val := append([]byte{}, v...)
+			for len(val) < l {
+				val = append(val, 0x5a)
+			}
+			one(uint64(l), val[:l])
+		}
+		for _, d := range []int{-2, -1, 1, 2} { // the declared length off by d, value unchanged
+			if len(v)+d >= 0 {
+				one(uint64(len(v)+d), v)
+			}
+		}
+		return strings.Join(out, ";")
+	case "cut":
+		// cut <kind> <args…> <hex>: the parser on every prefix of the input
+		if len(ws) < 3 {
+			return "skip"
+		}
+		data := unhx(ws[len(ws)-1])
+		var out []string
+		for k := 0; k <= len(data); k++ {
+			out = append(out, rn.summ(ws[1], ws[2:len(ws)-1], data[:k]))
+		}
+		return strings.Join(out, ";")
+	case "lenb":
+		// lenb <kind> <args…> <prehex> <v> <width> <posthex> <followhex>: a length field set to v-2 … v+2
+		if len(ws) < 7 {
+			return "skip"
+		}
+		n := len(ws)
+		pre, v, width, post, fol := unhx(ws[n-5]), u64(ws[n-4]), int(u64(ws[n-3])), unhx(ws[n-2]), unhx(ws[n-1])
+		var out []string
+		for d := -2; d <= 2; d++ {
+			if int64(v)+int64(d) < 0 {
+				continue
+			}
+			nv := uint64(int64(v) + int64(d))
+			b := append([]byte{}, pre...)
+			if width == 0 {
+				if nv > 255 {
+					continue
+				}
+				b = append(b, byte(nv))
+			} else {
+				if nv > 1<<62-1 {
+					continue
+				}
+				w := width
+				if vlen(nv) > w {
+					w = vlen(nv)
+				}
+				b = putVarint(b, nv, w)
+			}
+			b = append(b, post...)
+			out = append(out, rn.summ(ws[1], ws[2:n-5], b), rn.summ(ws[1], ws[2:n-5], append(append([]byte{}, b...), fol...)))
+		}
+		return strings.Join(out, ";")
 	case "tokrt":
 		return execTokenRoundTrip(ws)
 	case "tokdec":
@@ -949,6 +1017,33 @@ func (rn *runner) Exec(op string) string {
 			return "nil"
 		}
 		return "ok"
+	}
+	return "skip"
+}
+
+// summ runs one parser on data and returns a one-word summary (panics trapped per entry).
+func (rn *runner) summ(kind string, args []string, data []byte) (res string) {
+	defer func() {
+		if recover() != nil {
+			res = "PANIC"
+		}
+	}()
+	switch kind {
+	case "dec":
+		if len(args) < 3 {
+			return "skip"
+		}
+		f, n, e := decodeOne(args[0], args[1], args[2], data)
+		if e != "" {
+			return strings.ReplaceAll(e, " ", ",")
+		}
+		return fmt.Sprintf("ok:%s:%d", kindOf(f), n)
+	case "tpdec", "tpstdec", "lhdr", "shdr", "cid", "acid", "vn":
+		r := rn.Exec(kind + " " + strings.Join(append(append([]string{}, args...), hx(data)), " "))
+		if (kind == "tpdec" || kind == "tpstdec") && strings.HasPrefix(r, "ok") {
+			return "ok"
+		}
+		return strings.ReplaceAll(r, " ", ",")
 	}
 	return "skip"
 }
